@@ -239,6 +239,39 @@ func scenMalformed(rep *Report, tier string, seed int64) {
 				rep.Count("malformed:input-without-type")
 			}
 		}
+		// validly signed, well-formed batches built to overdraw through a change output: the first
+		// transfer returns part of its input to the sender, the second spends more than is left
+		// (every single input is within the balance the address had before the batch)
+		if i%2 == 1 {
+			for _, u := range g.Users {
+				if u.IsE && h <= s.Acts.RCDE {
+					continue
+				}
+				var tk fat2.PTicker
+				var x uint64
+				for _, t := range w.NonZeroAssets(u.FA()) {
+					if bal := w.Balance(u.FA(), t); bal > 1000 {
+						tk, x = t, bal
+						break
+					}
+				}
+				if x == 0 {
+					continue
+				}
+				var o1, o2 factom.FAAddress
+				r.Read(o1[:])
+				r.Read(o2[:])
+				first := x - x/5
+				change := first / 3
+				left := x - first + change
+				second := left + 1 + uint64(r.Intn(int(first-change)))
+				b.TX = append(b.TX, g.Batch(h, u, []fat2.Transaction{
+					Transfer(u.FA(), tk, fat2.AddressAmountTuple{Address: o1, Amount: first - change}, fat2.AddressAmountTuple{Address: u.FA(), Amount: change}),
+					Transfer(u.FA(), tk, fat2.AddressAmountTuple{Address: o2, Amount: second})}))
+				rep.Count("malformed:change-output-overdraft")
+				break
+			}
+		}
 		res, cont := stepExpectOK(rep, run, b, seed, "block with malformed entries", "liveness")
 		rep.Case(fmt.Sprintf("chains=%d|%s|opr%d|spr%d|tx%d", which, res.ImplClass, bucket(len(b.OPR)), bucket(len(b.SPR)), bucket(len(b.TX))), true)
 		rep.Count("result:" + res.ImplClass)
